@@ -91,7 +91,7 @@ pub fn run(ctx: &mut Ctx) -> (&'static str, String, bool) {
     }
     p.sample(json!({"stream": hex(&[&[1u8, 3, 5, 3][..], &ver_frame(true, 1, 8)[..]].concat()), "verify": true, "expected": ["Packet(Tiny ping)", "IncompatibleVersion(8)", "Disconnected"]}));
     // ---- every other kind is delivered in both settings ------------------------------------------
-    let per_kind = ctx.tier.pick(6usize, 200usize);
+    let per_kind = ctx.tier.pick(20usize, 400usize);
     for lay in c.kinds() {
         if lay.name == "VER" {
             continue;
